@@ -487,14 +487,20 @@ fn unwind_json(u: &mir::UnwindAction) -> String {
     }
 }
 
-fn body_json<'tcx>(cx: &mut Cx<'tcx>, def: LocalDefId, body: &Body<'tcx>, stage: &str) -> String {
+fn body_json<'tcx>(
+    cx: &mut Cx<'tcx>,
+    def: LocalDefId,
+    body: &Body<'tcx>,
+    stage: &str,
+    suffix: &str,
+) -> String {
     let tcx = cx.tcx;
     let did = def.to_def_id();
     let env = TypingEnv::post_analysis(tcx, did);
     let mut o = String::with_capacity(4096);
     o.push_str("{\"k\":\"body\"");
     let _ = write!(o, ",\"stage\":{}", js(stage));
-    let _ = write!(o, ",\"path\":{}", js(&cx.path(did)));
+    let _ = write!(o, ",\"path\":{}", js(&format!("{}{}", cx.path(did), suffix)));
     let dk = tcx.def_kind(did);
     let _ = write!(o, ",\"kind\":{}", js(&format!("{:?}", dk)));
     if body.coroutine.is_some() {
@@ -827,16 +833,26 @@ impl rustc_driver::Callbacks for Cb {
                     continue;
                 }
             }
-            let (steal, _promoted) = tcx.mir_promoted(def);
+            let (steal, promoted) = tcx.mir_promoted(def);
             if steal.is_stolen() {
                 nstolen += 1;
                 continue;
             }
             let body = steal.borrow();
-            let line = body_json(&mut cx, def, &body, "promoted");
+            let line = body_json(&mut cx, def, &body, "promoted", "");
             out.push_str(&line);
             out.push('\n');
             nbodies += 1;
+            // promoted constants of this body (e.g. `&"name"` operands of comparisons)
+            if !promoted.is_stolen() {
+                let proms = promoted.borrow();
+                for (pi, pbody) in proms.iter_enumerated() {
+                    let sfx = format!("::promoted[{}]", pi.as_u32());
+                    let line = body_json(&mut cx, def, pbody, "promoted-const", &sfx);
+                    out.push_str(&line);
+                    out.push('\n');
+                }
+            }
         }
         // impl table
         for id in tcx.hir_free_items() {
